@@ -207,6 +207,10 @@ def run(tier: str) -> int:
     p40 = primes(40)
     evs = []
     with quiet():
+        # sampler objects of growing dimension first, before anything else in this process has asked for primes: every new sampler
+        # needs more primes than any earlier one (state shared between sampler objects would surface here)
+        for d in (1, 2, 3, 5, 8, 13, 21, 40, 7, 2):
+            evs += halton_event(d, rng.randrange(2**31), [rng.randint(1, 4), rng.randint(1, 4)])
         if tier == "quick":
             evs += vdc_events(p40[:3], 0, 2**16 + 2**12)                               # all indices for bases 2, 3, 5
             for b in p40[3:]:                                                           # carries / prime powers / ends for the rest
